@@ -53,6 +53,11 @@ CHECKS = {
             'All 64 DAGs on 4 actions x iteration-group shapes x repetitions 1..3 (and stop instants) are confirmed to run every action after its prerequisites, non-iterated ones once, iterated ones round-robin the declared number of times, and to terminate; compiled @Ground/deep-recursion plans return the same table for a predicate whether asked alone or with others, never read a table before it is produced, and satisfy the shape invariant the scheduler proof assumes.',
             'Trusted: CrossHair, z3, lv/sqlsem.py. Stubs: display functions, os/open for the stop file. Bound: 4 actions (6 for two groups), name assignments sampled (2 quick / 4 thorough).',
             'DESIGN.md §3 C14', 'kern'),
+    'C15': ('other',
+            'CrossHair symbolic execution of the real scanner functions (Traverse, RemoveComments, IsWhole, SplitRaw, Split, Strip, StripSpaces, HeritageAwareString slicing) over all strings / slice bounds within a length bound; each lemma claimed on "Confirmed over all paths"; counterexamples replayed on the real functions',
+            'String bodies are opaque to the scanner and to every separator split; block and line comments are invisible; blanks, one pair of redundant parentheses and a trailing semicolon do not change what Split/Strip return; every slice of a HeritageAwareString spans exactly its own text. These are the lemmas the splitting parser rests on, for all strings within the bound.',
+            'Trusted: CrossHair. Bound: <=2 free body characters between enumerated contexts, <=3 (4 thorough) free characters elsewhere, heritage of 10 characters. Outside: whole-ParseFile invariance, C++ parser.',
+            'DESIGN.md §3 C15', 'kern'),
     'C16': ('other',
             'CrossHair symbolic execution of the real reference_algebra.Unify over symbolic type terms, partitioned by top-level constructors so that every partition reaches "Confirmed over all paths"; postcondition = independent structural meet; counterexamples replayed on the real code',
             'For all ordered pairs of type terms of depth <=1 (quick: one record field; thorough: two fields and lists inside records) Unify is confirmed symmetric, idempotent, equal to the structural meet on both references, and clashing exactly when the meet is empty; for constructor triples x all atom payloads the result is independent of the unification order when clash-free.',
@@ -68,6 +73,11 @@ CHECKS = {
             'For each catalogue program with an ordered/limited predicate z3 proves, for every database with <=K rows whose sort keys form a total order, that the predicate returns exactly the first K reference rows in order and that consumers read exactly those rows (so it was not inlined without its clauses).',
             'Trusted: lv/sqlsem.py, lv/refsem.py, lv/vals.py order_limit_rel, z3. Assumes distinct non-null sort keys.',
             'DESIGN.md §3 C18', 'sqlsmt'),
+    'C19': ('other',
+            'CrossHair symbolic execution of the real RemoveComments over all strings within a length bound, compared with an independent lexical specification ("Confirmed over all paths")',
+            'Only the lexical clause of the property: unbalanced brackets and a newline inside a double-quoted literal are reported through ParsingException exactly when present, and no other exception escapes, for every string of length <=3 (4 thorough).',
+            'Trusted: CrossHair, the harness-side lexical specification. The six program-shape clauses (range restriction, aggregation/distinct coherence, recursion base, functor arguments, annotation targets) are not decided: they quantify over program shape, for which this technique has nothing to make symbolic.',
+            'DESIGN.md §3 C19', 'kern'),
     'C20': ('other',
             'CrossHair symbolic execution of the real Python UDFs with unbounded symbolic ints over all arrival orders ("Confirmed over all paths"); z3 model of CPython set iteration to realise the Set-order candidate; z3 translation validation of the SQL-template built-ins (Range, Size, Element, in, Least/Greatest, arithmetic, comparison) against the reference; counterexamples replayed on the real code / real SQLite',
             'ArgMin/ArgMax/ArgMinK/ArgMaxK/Array, ArrayConcatAgg, ArrayConcat, SortList, InList, Join and the content of Set are confirmed against one-line specifications for every arrival order (n<=4, ties excepted); template built-ins are proved against the reference on every database with <=2 rows.',
